@@ -59,6 +59,15 @@ def cases(ctx: Ctx, res: Result):
             # the timestamps the events carry: arrival order, sources with skewed clocks (not monotone, ties), all equal
             yield Case([('ph', [pat])], 0, ev_ops(s, kind=('s', 's', 'mixed')[(i + 2 * j) % 3],
                                                   clock=('arrival', 'skewed', 'arrival', 'same')[(i + j) % 4]), 'exh')
+    # long hauls: thousands of events on one decider (more than a thousand runs started and finished, identifier counters
+    # past 10^3, the finished-run memory wrapped many times over, histories of hundreds of events)
+    for cache, n in ((0, 2600), (8, 2600)) + (((3, 12000),) if ctx.thorough else ()):
+        P2 = gp.pattern
+        haul = [('ph', [P2('p', ['0000', '0000'], [['eq:0'], ['eq:1']]), P2('l', ['0000', '0100', '0000'], [['eq:2'], ['lt:2'], ['eq:3']]),
+                        P2('s', ['0000', '1000'], [['eq:0'], ['eq:0']], singleton=True)])]
+        stream = [(i * 7 + (i // 5)) % 4 if i % 211 else 3 for i in range(n)]
+        res.count('long_haul')
+        yield Case(haul, cache, ev_ops(stream, kind='mixed' if cache else 's'), 'long-haul')
     # seeded random: longer patterns, several patterns/phenomena, history-dependent predicates
     for _ in range(1500 if ctx.thorough else 250):
         phens = gp.random_phens(ctx.rng)
